@@ -664,8 +664,9 @@ class Mesh:
         return True
 
     @staticmethod
-    def _remove_duplicate_nodes(p, t):
-        tmp = np.ascontiguousarray(p.T)
+    def _remove_duplicate_nodes(p, t, key=None):
+        # points with equal keys (by default: equal coordinates) are merged
+        tmp = np.ascontiguousarray((p if key is None else key).T)
         tmp, ixa, ixb = np.unique(tmp.view([('', tmp.dtype)] * tmp.shape[1]),
                                   return_index=True, return_inverse=True)
         return p[:, ixa], Mesh._squeeze_if(ixb[t])
@@ -712,10 +713,13 @@ class Mesh:
         cls = type(self)
         if not isinstance(other, cls):
             raise TypeError("Can only join meshes with same type.")
-        p = np.hstack((self.p.round(decimals=8),
-                       other.p.round(decimals=8)))
+        p = np.hstack((self.p, other.p))
         t = np.hstack((self.t, other.t + self.p.shape[1]))
-        return cls(*self._remove_duplicate_nodes(p, t))
+        # vertices agreeing to 8 digits of the size of the mesh are merged;
+        # the joined mesh keeps the coordinates as they are
+        scale = np.abs(p).max() or 1.
+        key = (p / scale).round(decimals=8)
+        return cls(*self._remove_duplicate_nodes(p, t, key=key))
 
     def __repr__(self):
         rep = ""
